@@ -4,7 +4,7 @@
 # that raise an alarm; restores /repo and the evidence files afterwards.
 cd "$(dirname "$0")/.."
 mkdir -p .work/ev-harmless && cp evidence/*.json .work/ev-harmless/
-for h in seeded/harmless/h*.diff; do
+for h in seeded/${HARMLESS_DIR:-harmless}/h*.diff; do
   name=$(basename "$h" .diff)
   if [ -n "$(git -C /repo status --porcelain)" ]; then echo "refusing: /repo dirty"; exit 2; fi
   git -C /repo apply "$(pwd)/$h" || { echo "$name: does not apply"; continue; }
